@@ -136,6 +136,15 @@ func (f feT) FlushError() error {
 	return f.Conn.FlushErr
 }
 
+// febT offers both flavours, like net/http's own writers: FlushError is the one that can report a failure.
+type febT struct{ *Conn }
+
+func (f febT) Flush() { f.Conn.Events = append(f.Conn.Events, ConnEvent{Kind: "flush"}) }
+func (f febT) FlushError() error {
+	f.Conn.Events = append(f.Conn.Events, ConnEvent{Kind: "flusherror"})
+	return f.Conn.FlushErr
+}
+
 type hjT struct{ *Conn }
 
 func (h hjT) Hijack() (net.Conn, *bufio.ReadWriter, error) {
@@ -190,7 +199,12 @@ func (c *Conn) Wrap(caps Caps) http.ResponseWriter {
 			W
 			flT
 		}{c, flT{c}}
-	case !group && !rf && fe:
+	case !group && !rf && fe && fl:
+		return struct {
+			W
+			febT
+		}{c, febT{c}}
+	case !group && !rf && fe && !fl:
 		return struct {
 			W
 			feT
@@ -201,7 +215,13 @@ func (c *Conn) Wrap(caps Caps) http.ResponseWriter {
 			rfT
 			flT
 		}{c, rfT{c}, flT{c}}
-	case !group && rf && fe:
+	case !group && rf && fe && fl:
+		return struct {
+			W
+			rfT
+			febT
+		}{c, rfT{c}, febT{c}}
+	case !group && rf && fe && !fl:
 		return struct {
 			W
 			rfT
@@ -236,7 +256,17 @@ func (c *Conn) Wrap(caps Caps) http.ResponseWriter {
 			wdT
 			fdT
 		}{c, flT{c}, hjT{c}, puT{c}, rdT{c}, wdT{c}, fdT{c}}
-	case group && !rf && fe:
+	case group && !rf && fe && fl:
+		return struct {
+			W
+			febT
+			hjT
+			puT
+			rdT
+			wdT
+			fdT
+		}{c, febT{c}, hjT{c}, puT{c}, rdT{c}, wdT{c}, fdT{c}}
+	case group && !rf && fe && !fl:
 		return struct {
 			W
 			feT
@@ -273,9 +303,6 @@ func (c *Conn) Wrap(caps Caps) http.ResponseWriter {
 
 // NormCaps maps a drawn capability set onto a supported combination (see Wrap).
 func NormCaps(c Caps) Caps {
-	if c.FlushError {
-		c.Flusher = false
-	}
 	g := c.Hijacker || c.Pusher || c.ReadDeadline || c.WriteDeadline || c.FullDuplex
 	c.Hijacker, c.Pusher, c.ReadDeadline, c.WriteDeadline, c.FullDuplex = g, g, g, g, g
 	return c
